@@ -16,7 +16,8 @@ FAMILIES = ["none", "hdr-field", "forged", "salt-iv", "rehash-block", "resign", 
             "hdr-field", "block", "signature", "pubkey", "sharehash", "blockhash", "flap", "crossfile",
             "hdr-field", "forged", "phase", "encprivkey", "randflip", "truncate", "swapshnum", "delete",
             "server-fault", "container", "salt-iv", "flap", "rehash-block", "hdr-field", "dup-bad-copy",
-            "truncate-inside", "poison-chain", "truncate-inside", "poison-chain", "truncate-inside"]
+            "truncate-inside", "poison-chain", "truncate-inside", "poison-chain", "truncate-inside",
+            "late-segment", "late-segment"]
 
 MAX_STEPS = 15000     # scheduler steps per read: a read of these sizes needs a few hundred
 
@@ -242,6 +243,8 @@ class History(object):
                 kind = rng.choice(["smap-copy-dlv", "version-read", "dbv-ro-fresh"])
             if fam in ("truncate-inside", "poison-chain"):
                 kind = rng.choice(["dbv-ro-fresh", "dbv-rw-fresh", "dbv-writer", "dbv-rw-fresh"])
+            if fam == "late-segment":
+                kind = rng.choice(["dbv-rw-fresh", "dbv-writer", "dbv-rw-fresh", "dbv-ro-fresh"])
             if rng.random() < .15 and kind in ("version-read", "smap-dlv", "smap-copy-dlv"):
                 sub = rng.choice(["salt-iv", "crossversion", "block"])
                 between = lambda: self.apply(sub, dmg, sweep)   # noqa: E731
@@ -362,6 +365,38 @@ class History(object):
             return
         if fam == "poison-chain":
             self.poison(dmg, sweep)
+            return
+        if fam == "late-segment":
+            # multi-segment file: the shares a first (bounded) survey finds are all damaged in a block of a LATER
+            # segment, so a read delivers the first segment(s) and only then runs out of shares; k intact shares sit on
+            # the servers last in permuted order, where only the retry's wider survey looks
+            shares = [x for x in M.disk_shares(g, self.si) if x[2].fmt is not None]
+            if not shares or shares[0][2].num_segments() < 2:
+                raise Skip("single segment")
+            k = self.k_newest
+            order = [s_.vserver.index for s_ in self.c.storage_broker.get_servers_for_psi(self.si)]
+            by_server = {}
+            for x in shares:
+                by_server.setdefault(x[0], []).append(x)
+            keep, kept = set(), set()
+            for idx in reversed(order):              # intact shares: on the last servers, k distinct share numbers
+                if len(kept) >= k:
+                    break
+                if idx in by_server:
+                    keep.add(idx)
+                    kept |= set(x[1] for x in by_server[idx])
+            nseg = shares[0][2].num_segments()
+            seg = rng.choice([1, nseg - 1, rng.randrange(1, nseg)])
+            for (idx, shnum, ms) in shares:
+                if idx in keep:
+                    continue
+                salt_span, (bs, be) = ms.block_span(seg)
+                if be <= bs:
+                    continue
+                ms.flip(bs + rng.randrange(be - bs), 1 << rng.randrange(8))
+                ms.save()
+                dmg.changed += 1
+            dmg.note("block of segment %d flipped in every share except those on servers %s" % (seg, sorted(keep)))
             return
         if fam == "dup-bad-copy":
             # the same share number on two servers, one of the two copies damaged below the signed prefix
